@@ -106,13 +106,18 @@ def id_correlation(ctx) -> None:
         return
     key = core.src(reg[0].targets[0].slice)
     task = next(c for c in core.calls_in(put[0]) if core.call_name(c) == 'Task')
-    ctx.check(core.src(task.args[0]) == key, 'C16.id', ap, f'the pending future and the task carry the same id expression ({key} / {core.src(task.args[0])})', put[0], key='apply:same-id')
+    def targ(pos: int, name: str) -> str:
+        if len(task.args) > pos:
+            return core.src(task.args[pos])
+        return next((core.src(k.value) for k in task.keywords if k.arg == name), '')
+
+    ctx.check(targ(0, 'id') == key, 'C16.id', ap, f"the pending future and the task carry the same id expression ({key} / {targ(0, 'id')})", put[0], key='apply:same-id')
     ctx.check(graph.dominates(reg[0], put[0]) and not graph.reaches(put[0], reg[0]), 'C16.id', ap, 'the future is registered before the task is queued (a fast worker cannot answer an unknown id)', put[0], key='apply:register-first')
     ctx.check(graph.dominates(put[0], inc[0]) and graph.dominates(reg[0], inc[0]) and not graph.reaches(inc[0], reg[0]) and not graph.reaches(inc[0], put[0]), 'C16.id', ap, 'the index advances only after both uses', inc[0], key='apply:advance-last')
     ctx.check(isinstance(inc[0], ast.AugAssign) and isinstance(inc[0].op, ast.Add) and core.is_const(inc[0].value, 1), 'C16.id', ap, 'ids are consecutive (index += 1): never reused while pending', inc[0], key='apply:increment')
     ret = next((r for r in core.walk_local(ap.node) if isinstance(r, ast.Return)), None)
     ctx.check(ret is not None and core.src(ret.value) == core.src(reg[0].value), 'C16.id', ap, 'the caller receives the very future that was registered', ret or ap.node, key='apply:return')
-    ctx.check(core.src(task.args[1]) == 'entry', 'C16.id', ap, "the task carries the caller's entry", put[0], key='apply:entry')
+    ctx.check(targ(1, 'entry') == 'entry', 'C16.id', ap, "the task carries the caller's entry", put[0], key='apply:entry')
     run = prog.func(f'{PRED}:Executor.run')
     keys = [core.src(n.slice) for n in core.walk_local(run.node) if isinstance(n, ast.Subscript) and core.src(n.value) == 'self._pending']
     keys += [core.src(c.args[0]) for c in core.calls_in(run.node) if isinstance(c.func, ast.Attribute) and c.func.attr in ('pop', 'get') and core.src(c.func.value) == 'self._pending' and c.args]
